@@ -5,6 +5,7 @@ import OmplModel.Proofs.DiscProps
 import OmplModel.Proofs.DiscReal
 import OmplModel.Proofs.KPIECE1
 import OmplModel.Proofs.LBKPIECE1
+import OmplModel.Proofs.LBKPIECE1Path
 /-!
 # C13 — grid discretizations track cells, neighbours, borders and components exactly
 
@@ -458,30 +459,62 @@ theorem lbkpiece_remove_subtree_partial (cfg : LBKPIECE1.Cfg S α) (t : Bool) (f
     (st : LBKPIECE1.St S α) : LBKPIECE1.FrameV st.ar (removeSubtree cfg t fuel i detach st).ar :=
   removeSubtree_frame cfg t fuel i detach st
 
-/-- **Reports (partial)**: the status is EXACT_SOLUTION exactly when `addSolutionPath` was called; INVALID_START /
-INVALID_GOAL / TIMEOUT add nothing.
-Not proved here (checked by the oracle and the lock-step correspondence on every run): that the reported path is the
-concatenation of the two chains both `isPathValid` calls just answered `true` for -- with `lbkpiece_isPathValid_complete`
-and `lbkpiece_valid_flag_sound` that gives "every consecutive pair of the reported path was answered valid by
-`checkMotion`, first state a valid start, last a valid goal sample" (`lbkpiece_solution_real`); missing is the lemma that
-`chainUp` after the second walk still lists the motions validated by the first (parents are framed, so it does). -/
-theorem lbkpiece_solution_real_partial (cfg : LBKPIECE1.Cfg S α) (starts : Array S) (script : List (LBKPIECE1.Draw S α)) :
+/-- **LBKPIECE1 reports only real solutions**, for every configuration (every oracle), start set and script: the
+status is EXACT_SOLUTION exactly when `addSolutionPath` was called (INVALID_START / INVALID_GOAL / TIMEOUT add nothing),
+and the path handed over is `SReal`: a start-tree part beginning at a problem start that passed the input filter, each
+step a justified edge parent → child; a goal-tree part ending at a goal sample that passed the input filter, each step a
+justified edge traversed child → parent; and the junction between them answered valid by `checkMotion`.  "Justified"
+(`Link`) = answered `true` by `checkMotion` inside `isPathValid` during the run, or the re-added `lastValid.first` of a
+failed motion with `lastValid.second > minValidPathFraction_`: lazy validation is complete for everything reported. -/
+theorem lbkpiece_solution_real (cfg : LBKPIECE1.Cfg S α) (hcoord : ∀ s, (cfg.coord s).length = cfg.P.dim)
+    (starts : Array S) (script : List (LBKPIECE1.Draw S α)) :
     ((LBKPIECE1.solve cfg starts script).status = .exactSolution ↔ (LBKPIECE1.solve cfg starts script).added.isSome = true) ∧
-    ((LBKPIECE1.solve cfg starts script).added.isSome = true →
-      (LBKPIECE1.solve cfg starts script).final.solved = (LBKPIECE1.solve cfg starts script).added) := by
+    (∀ path, (LBKPIECE1.solve cfg starts script).added = some path → LBKPIECE1.SReal cfg starts path) := by
+  have hinit := initState_linv cfg hcoord starts
+  have hsol := loop_sol hcoord script (initState cfg starts).1 hinit (by
+    intro p hp
+    have : (initState cfg starts).1.solved = none := by
+      unfold initState; rw [addStarts_solved]
+    rw [this] at hp; cases hp)
   unfold LBKPIECE1.solve
   simp only []
   split
-  · exact ⟨by simp, by simp⟩
+  · exact ⟨by simp, by intro p hp; cases hp⟩
   · split
-    · exact ⟨by simp, by simp⟩
+    · exact ⟨by simp, by intro p hp; cases hp⟩
     · split
       · rename_i path hp
-        exact ⟨by simp, fun _ => hp⟩
-      · refine ⟨?_, by simp⟩
+        refine ⟨by simp, ?_⟩
+        intro p' hp'
+        simp only [Option.some.injEq] at hp'
+        subst hp'
+        exact hsol _ hp
+      · refine ⟨?_, by intro p hp; cases hp⟩
         split <;> simp
 
+/-- **LBKPIECE1 obeys the Discretization protocol on both trees**, for every script -- across lazy additions, failed
+lazy validations with `removeMotion` of whole subtrees, and re-adds: the Discretization invariant of round 2 holds for
+`dStart_` and for `dGoal_` with "the alive motions of that tree, each stored under the projection coordinate of its
+state"; hence every motion still stored sits in exactly the cell of its coordinate, no cell is empty and the sizes match.
+Also: every motion's parent and children belong to its own tree. -/
+theorem lbkpiece_disc_inv (cfg : LBKPIECE1.Cfg S α) (hcoord : ∀ s, (cfg.coord s).length = cfg.P.dim)
+    (starts : Array S) (script : List (LBKPIECE1.Draw S α)) :
+    let st := (LBKPIECE1.solve cfg starts script).final
+    DInv cfg.P st.dS (liveAr cfg true st.ar) ∧ DInv cfg.P st.dG (liveAr cfg false st.ar) ∧ Coh st.ar ∧
+    (∀ t i x, (i, x) ∈ liveAr cfg t st.ar ↔ ∃ m, st.ar[i]? = some m ∧ m.alive = true ∧ m.inStart = t ∧ x = cfg.coord m.state) ∧
+    st.dS.size = (liveAr cfg true st.ar).length ∧ st.dG.size = (liveAr cfg false st.ar).length := by
+  intro st
+  have h := solve_linv cfg hcoord starts script
+  exact ⟨h.2.dS, h.2.dG, h.2.coh, fun t i x => mem_liveAr cfg t st.ar i x, h.2.dS.size, h.2.dG.size⟩
+
 /-! non-vacuity -/
+example (cfg : LBKPIECE1.Cfg S α) (h : cfg.coord = fun _ => List.replicate cfg.P.dim 0) :
+    ∀ s, (cfg.coord s).length = cfg.P.dim := by intro s; simp [h]
+/-- the empty arena satisfies the invariants, and a two-state `SReal` path exists as soon as a valid start, a valid goal
+sample and a valid motion between them do -/
+example (cfg : LBKPIECE1.Cfg S α) (starts : Array S) (a b : S) (ha : LBKPIECE1.ValidStart cfg starts a)
+    (hb : LBKPIECE1.ValidGoal cfg b) (hab : (cfg.checkMotion a b).1 = true) : LBKPIECE1.SReal cfg starts [a, b] :=
+  ⟨[a], [b], rfl, trivial, trivial, ⟨a, rfl, ha⟩, ⟨b, rfl, hb⟩, ⟨a, b, rfl, rfl, Or.inl (Or.inl hab)⟩⟩
 example (cfg : LBKPIECE1.Cfg S α) (a b : S) (h : (cfg.checkMotion a b).1 = true) : LBKPIECE1.Link cfg a b := Or.inl h
 example (cfg : LBKPIECE1.Cfg S α) (script : List (LBKPIECE1.Draw S α)) :
     (LBKPIECE1.solve cfg #[] script).status = .invalidStart := rfl
